@@ -2,6 +2,7 @@ package main
 
 import (
 	"go/ast"
+	"go/constant"
 	"go/token"
 	"go/types"
 	"sort"
@@ -19,6 +20,13 @@ type Report struct {
 	Nondeterminism []Finding  `json:"nondeterminism"`
 	API            []APIEntry `json:"api"`
 	ExportedTypes  []string   `json:"exported_types"`
+	// ConstInts / ConstStrings: the values of all constant expressions of
+	// integer / string type in the non-test source (literals and folded
+	// expressions such as 1<<20): the thresholds and magic values the code
+	// compares against. The checks add them (and their neighbours) to
+	// their length, count and content domains.
+	ConstInts    []int64  `json:"const_ints"`
+	ConstStrings []string `json:"const_strings"`
 }
 
 type Finding struct {
@@ -65,6 +73,7 @@ func (t *tool) staticReport() *Report {
 	}
 	sort.Strings(rep.Globals)
 	t.apiFacts(rep)
+	t.constFacts(rep)
 	return rep
 }
 
@@ -147,6 +156,53 @@ func (t *tool) fileFacts(f *srcFile, rep *Report) {
 		}
 		return true
 	})
+}
+
+// constFacts collects the values of constant expressions. Only maximal
+// constant expressions count (1<<20, not its operands), integers between
+// 2 and 2^28, strings of 1..64 bytes; the generated stringer tables are
+// left out.
+func (t *tool) constFacts(rep *Report) {
+	ints := map[int64]bool{}
+	strs := map[string]bool{}
+	for _, f := range t.files {
+		if f.hooks || strings.HasSuffix(f.name, "_string.go") {
+			continue
+		}
+		var visit func(n ast.Node) bool
+		visit = func(n ast.Node) bool {
+			e, ok := n.(ast.Expr)
+			if !ok {
+				return true
+			}
+			tv, ok := t.info.Types[e]
+			if !ok || tv.Value == nil {
+				return true
+			}
+			switch tv.Value.Kind() {
+			case constant.Int:
+				if v, exact := constant.Int64Val(tv.Value); exact && v >= 2 && v <= 1<<28 {
+					ints[v] = true
+				}
+			case constant.String:
+				if sv := constant.StringVal(tv.Value); len(sv) >= 1 && len(sv) <= 64 {
+					strs[sv] = true
+				}
+			}
+			return false // maximal constant expression: do not descend
+		}
+		ast.Inspect(f.ast, visit)
+	}
+	rep.ConstInts = make([]int64, 0, len(ints))
+	for v := range ints {
+		rep.ConstInts = append(rep.ConstInts, v)
+	}
+	sort.Slice(rep.ConstInts, func(i, j int) bool { return rep.ConstInts[i] < rep.ConstInts[j] })
+	rep.ConstStrings = make([]string, 0, len(strs))
+	for v := range strs {
+		rep.ConstStrings = append(rep.ConstStrings, v)
+	}
+	sort.Strings(rep.ConstStrings)
 }
 
 // apiFacts lists exported functions, exported types and the exported
